@@ -490,6 +490,37 @@ def run_region_cached(args):
         v["a pinned thread did not observe its own write: another thread installed an outdated regional copy behind the writer's invalidation"] = z3.And(z3.Or(*own), F.recv_gone)
     if order:
         v["a reader observed the single writer's values out of order"] = z3.Or(*order)
+    if args.pin:
+        # sequential translation validation: the items run one at a time in the given global order (list of thread ids)
+        order, seen = [], {}
+        for t_ in [int(x) for x in args.pin.split(",")]:
+            order.append((t_, seen.get(t_, 0)))
+            seen[t_] = seen.get(t_, 0) + 1
+        cons = []
+        for i_ in range(enc.k):
+            S_ = enc.S[i_]
+
+            def in_item(t, j_):
+                ids = [nid for nid, o in threads[t]["item_of"].items() if o == j_]
+                return z3.Or(*[S_.pc[t] == E.N(nid) for nid in ids]) if ids else z3.BoolVal(False)
+
+            def finished(u, m_):
+                return z3.Not(z3.Or(*[in_item(u, mm) for mm in range(m_ + 1)]))
+            for pos, (t, j_) in enumerate(order):
+                if order[:pos]:
+                    cons.append(z3.Implies(z3.And(enc.sched[i_] == E.N(t), in_item(t, j_)), z3.And(*[finished(u, m_) for (u, m_) in order[:pos]])))
+        r, m = enc.check(done, *cons, timeout_s=args.timeout)
+        if r != z3.sat:
+            out.update(verdict="pin-unsat", detail=str(r))
+            return out
+        ev = lambda x: m.eval(x, model_completion=True)
+        base_of_thread, b_ = [], 0
+        for th in kinds:
+            base_of_thread.append(b_)
+            b_ += len(th)
+        reads = [ev(F.res[base_of_thread[t] + j_]).as_long() for (t, j_) in order if kinds[t][j_][0] == "read"]
+        out.update(verdict="pinned", final=dict(reads=reads, bad=ev(F.bad).as_long(), regions=[ev(F.curL["reg%d" % r_]).as_long() for r_ in range(nreg)], latest=ev(F.curL["latest"]).as_long()))
+        return out
     tq = time.time()
     r, m = enc.check(done, timeout_s=args.timeout)
     out["queries"].append(dict(q="witness: a complete run exists", result=str(r), s=round(time.time() - tq, 2)))
